@@ -159,7 +159,8 @@ OPEN_DATES = [(2018, 12, 25), (2019, 1, 5), (2019, 1, 12), (2019, 2, 1), (2019, 
 
 def make_period(skel, has_open, has_close, clear, expr, both_symbolic=False):
     cname = {'date': 'closeon', True: 'close', False: 'noclose'}[has_close]
-    name = f'{skel}.{"open" if has_open else "noopen"}-{cname}-{"clear" if clear else "noclear"}{"-filtered" if expr else ""}'
+    etag = {False: '', True: '-filtered', 'true': '-filtered-by-constant', 'folded': '-filtered-by-folded-constant'}[expr]
+    name = f'{skel}.{"open" if has_open else "noopen"}-{cname}-{"clear" if clear else "noclear"}{etag}'
     params = {}
     enum_open = has_open and has_close == 'date' and not both_symbolic
     if enum_open:
@@ -177,7 +178,8 @@ def make_period(skel, has_open, has_close, clear, expr, both_symbolic=False):
                   'last entry date, after the ledger); the CLOSE date is symbolic] ' if enum_open else '') +f'ledger skeleton {skel} (5 / 4 transactions, lots at cost and a sale / a currency conversion; amounts concrete); '
                  'OPEN and CLOSE dates: every date (day <= 28) in 2018-12-20..2019-02-10, i.e. before, inside, after the ledger '
                  'and equal to entry dates; the clause subset of this condition'
-                 + ('; a FROM filter expression that is always true (year > 2000)' if expr else ''),
+                 + {False: '', True: '; a FROM filter expression that is always true (year > 2000)',
+                    'true': '; the FROM filter expression TRUE', 'folded': '; the FROM filter expression 1 = 1 (folded to a constant)'}[expr],
           symbolic='the OPEN and CLOSE dates', enumerated='skeleton, clause subset, filter (one condition each)',
           params=params, group='C13.period',
           note='beancount.ops.summarize (open_opt / close_opt / clear_opt) is executed for real under the solver, not modelled')
@@ -191,7 +193,9 @@ def make_period(skel, has_open, has_close, clear, expr, both_symbolic=False):
         if d is not None and e is not None:
             assume(d <= e)
         close = e if has_close == 'date' else (True if has_close else None)
-        clause = ast.From(ast.Greater(col('year'), const(2000)) if expr else None, d, close, True if clear else None)
+        fexpr = {False: None, True: ast.Greater(col('year'), const(2000)), 'true': const(True),
+                 'folded': ast.Equal(const(1), const(1))}[expr]
+        clause = ast.From(fexpr, d, close, True if clear else None)
         stmt = sel([target(col('date')), target(col('flag')), target(col('narration')), target(col('account')),
                     target(col('position')), target(col('weight')), target(col('id'))], from_clause=clause)
         conn = _conn(entries, options)
@@ -211,6 +215,9 @@ for _skel in SKELETONS:
         make_period(_skel, _o, _c, _clr, False)
 make_period('A', True, 'date', True, True)
 make_period('B', True, 'date', False, True)
+make_period('A', True, 'date', True, 'true')
+make_period('B', False, 'date', True, 'folded')
+make_period('B', True, True, True, 'true')
 for _skel in SKELETONS:
     make_period(_skel, True, 'date', True, False, both_symbolic=True)
     make_period(_skel, True, 'date', False, False, both_symbolic=True)
